@@ -57,14 +57,17 @@ func (c *Struct) Ident() string {
 	// Packed struct constant.
 	//
 	//    '<' '{' Fields=(TypeConst separator ',')+? '}' '>'
+	// Note: the type is computed by Type if not present (it is not packed then);
+	// it is not cached here, as Ident may be invoked by concurrent printers.
+	packed := c.Typ != nil && c.Typ.Packed
 	if len(c.Fields) == 0 {
-		if c.Typ.Packed {
+		if packed {
 			return "<{}>"
 		}
 		return "{}"
 	}
 	buf := &strings.Builder{}
-	if c.Typ.Packed {
+	if packed {
 		buf.WriteString("<")
 	}
 	buf.WriteString("{ ")
@@ -75,7 +78,7 @@ func (c *Struct) Ident() string {
 		buf.WriteString(field.String())
 	}
 	buf.WriteString(" }")
-	if c.Typ.Packed {
+	if packed {
 		buf.WriteString(">")
 	}
 	return buf.String()
